@@ -87,12 +87,36 @@ class Unmodelled(Exception):
     """the object has no image in the Coq value ADT (oracle-only case)"""
 
 
+_TORCH_INTERNAL = None
+HYB_REGISTRIES = ("_parameters", "_buffers", "_modules")
+
+
+def is_hybrid(x) -> bool:
+    """torch.nn.Module + AutoSerialize (the pattern of quantem's ObjectBase / ProbeBase / dataset classes)"""
+    import torch
+    from quantem.core.io.serialize import AutoSerialize
+    return isinstance(x, torch.nn.Module) and isinstance(x, AutoSerialize)
+
+
 def ovars(x) -> dict:
-    """the attributes the serializer sees: the declared fields of an attrs class (also when they live in
-    slots; a field that is unset, e.g. skipped at load time, is absent), else vars(x)"""
+    """the attributes of an object as the property speaks about them: the declared fields of an attrs class (also
+    when they live in slots; a field that is unset, e.g. skipped at load time, is absent); for an nn.Module hybrid
+    its plain attributes plus its parameters, buffers and sub-modules (real attributes for hasattr / getattr /
+    delattr, kept by torch in registries) without torch's own bookkeeping entries; else vars(x)"""
+    global _TORCH_INTERNAL
     fields = getattr(type(x), "__attrs_attrs__", None)
     if fields is not None:
         return {f.name: getattr(x, f.name) for f in fields if hasattr(x, f.name)}
+    if is_hybrid(x):
+        import torch
+        if _TORCH_INTERNAL is None:
+            _TORCH_INTERNAL = set(vars(torch.nn.Module()))
+        d = {k: v for k, v in vars(x).items() if k not in _TORCH_INTERNAL}
+        for reg in HYB_REGISTRIES:
+            r = vars(x).get(reg)
+            if isinstance(r, dict):
+                d.update(r)
+        return d
     return vars(x)
 
 
@@ -114,6 +138,9 @@ def _arr_from_spec(dt, shape, seed, layout):
     shape = tuple(shape)
     n = int(np.prod(shape)) if shape else 1
     d = np.dtype(dt if not isinstance(dt, list) else [tuple(x) for x in dt])
+    if layout == "zeros":
+        # every element is the fill value (zarr writes no chunk for such an array)
+        return np.zeros(shape, dtype=d)
     if layout == "strided" and len(shape) >= 1 and shape[0] > 0:
         big = (shape[0] * 2,) + shape[1:]
     else:
@@ -193,6 +220,17 @@ def build(spec):
         o = cc.CLASSES[spec[1]]()
         for kk, v in spec[2]:
             setattr(o, kk, build(v))
+        return o
+    if k == "hyb":
+        # nn.Module + AutoSerialize hybrid: entries (name, role, value) with role module | param | buffer | plain
+        from . import c01_classes as cc
+        o = cc.CLASSES[spec[1]]()
+        for nm, role, vs in spec[2]:
+            v = build(vs)
+            if role == "buffer":
+                o.register_buffer(nm, v)
+            else:
+                setattr(o, nm, v)
         return o
     if k == "logger":
         lg = logging.getLogger(spec[1])
@@ -399,13 +437,15 @@ def arr_term(a: np.ndarray) -> str:
     return "(mkArr %s %s (AOpaque %s))" % (cs(dtype_name(a.dtype)), clist(cz(s) for s in a.shape), cz(arr_id(a)))
 
 
-def alpha(x, loaded=False, stats=None) -> str:
+def alpha(x, loaded=False, stats=None, root=True) -> str:
     """Coq term of the model value that abstracts the real object x.  `loaded`: the object came out
-    of load() — an rng is then described by its kind only (its state is fresh by design)."""
+    of load() — an rng is then described by its kind only (its state is fresh by design).  `root`: x is the object
+    save() is called on — an nn.Module hybrid is then an object whose fields are its raw vars() (what _recursive_save
+    iterates: the registries are dict-valued fields); anywhere else _serialize_value saves it whole as a module."""
     def st(kind):
         if stats is not None:
             stats[kind] = stats.get(kind, 0) + 1
-    rec = lambda y: alpha(y, loaded, stats)  # noqa: E731
+    rec = lambda y: alpha(y, loaded, stats, False)  # noqa: E731
     if x is None:
         st("none")
         return "VNone"
@@ -465,16 +505,17 @@ def alpha(x, loaded=False, stats=None) -> str:
         return "(VOther %s %s)" % (clist(cs(t) for t in mro_names(x)), cz(other_id(x)))
     from quantem.core.io.serialize import AutoSerialize
     import torch
-    if isinstance(x, AutoSerialize) and not isinstance(x, torch.nn.Module):
-        st("object")
+    if isinstance(x, AutoSerialize) and (root or not isinstance(x, torch.nn.Module)):
+        hyb = isinstance(x, torch.nn.Module)
+        st("object-hybrid-root" if hyb else "object")
         return "(VObj %s %s %s)" % (cs(type(x).__module__), cs(type(x).__qualname__),
-                                    clist("(%s, %s)" % (cs(k), rec(v)) for k, v in ovars(x).items()))
+                                    clist("(%s, %s)" % (cs(k), rec(v)) for k, v in (vars(x) if hyb else ovars(x)).items()))
     import torch
     if isinstance(x, (torch.Tensor, torch.optim.Optimizer, torch.nn.Module, torch.Generator)) or (
             hasattr(x, "step") and hasattr(x, "get_last_lr")):
         kind, meta, h = blob_id(x)
         st({"BTensor": "tensor", "BOptimizer": "optimizer", "BScheduler": "scheduler"}.get(
-            kind, "tgen" if isinstance(x, torch.Generator) else "module"))
+            kind, "tgen" if isinstance(x, torch.Generator) else "module-hybrid-child" if isinstance(x, AutoSerialize) else "module"))
         return "(VBlob %s %s %s %s)" % (kind, clist(cs(t) for t in mro_names(x)), smap_term(meta), cz(h))
     raise Unmodelled("object of type %s" % type(x).__name__)
 
@@ -599,6 +640,8 @@ def _kind(x):
     from quantem.core.io.serialize import AutoSerialize
     if x is None:
         return "none"
+    if isinstance(x, torch.nn.Module) and isinstance(x, AutoSerialize):
+        return "object"
     for t, n in ((bool, "bool"), (np.generic, "npscalar"), (int, "int"), (float, "float"), (str, "str"),
                  (pathlib.PurePath, "path"), (np.ndarray, "ndarray"), (list, "list"), (tuple, "tuple"), (set, "set"),
                  (dict, "dict"), (logging.Logger, "logger"), (np.random.Generator, "rng"),
@@ -789,11 +832,26 @@ def _target(tmp, store, as_path, tag="x"):
     return pathlib.Path(p) if as_path else p
 
 
-def real_save(obj, tmp, cfg, skip=(), tag="x"):
+def real_save(obj, tmp, cfg, skip=(), tag="x", prev=None, notes=None):
     """save with the configuration cfg = {store, compression, as_path, mode}; mode 'o' first puts
-    stale content at the target"""
+    stale content at the target: the store of an EARLIER save of the object `prev` (a different graph) when one is
+    given, else junk.  A target that already exists (a second overwrite of the same target) is left as it is."""
     p = _target(tmp, cfg["store"], cfg["as_path"], tag)
-    if cfg["mode"] == "o":
+    import contextlib
+    done = os.path.exists(str(p))
+    if cfg["mode"] == "o" and prev is not None and not done:
+        try:
+            with contextlib.redirect_stdout(io.StringIO()):
+                prev.save(p, mode="w", store=cfg["store"], compression_level=cfg.get("prev_compression", cfg["compression"]))
+            done = True
+        except Exception as e:  # noqa  (the earlier graph could not be saved: the target is untouched; junk instead)
+            if notes is not None:
+                notes.append("earlier save raised %s: junk placed at the target instead" % type(e).__name__)
+            if os.path.isdir(str(p)):
+                shutil.rmtree(str(p), ignore_errors=True)
+            elif os.path.exists(str(p)):
+                os.remove(str(p))
+    if cfg["mode"] == "o" and not done:
         if cfg["store"] == "zip":
             with open(str(p), "wb") as f:
                 f.write(b"stale")
@@ -801,7 +859,6 @@ def real_save(obj, tmp, cfg, skip=(), tag="x"):
             os.makedirs(os.path.join(str(p), "stale_group"))
             with open(os.path.join(str(p), "stale_group", "junk"), "w") as f:
                 f.write("stale")
-    import contextlib
     with contextlib.redirect_stdout(io.StringIO()):
         obj.save(p, mode=cfg["mode"], store=cfg["store"], skip=list(skip), compression_level=cfg["compression"])
     return p
@@ -828,8 +885,26 @@ def resolve_types(names):
     return out
 
 
+_SRC_GUARDS = None
+
+
 def guard_vector(v):
-    """the fifteen tests of _serialize_value evaluated on a real object"""
+    """the tests of _serialize_value evaluated on a real object: compiled from the CURRENT source of the chain
+    (harness/c01_tie.compiled_guards); the hand copy below only serves when the translator rejects the source
+    (the tie is then reported broken by the check).  Returns (vector, compiled_from_source)."""
+    global _SRC_GUARDS
+    if _SRC_GUARDS is None:
+        try:
+            from .c01_tie import compiled_guards
+            _SRC_GUARDS = compiled_guards()
+        except Exception:  # noqa
+            _SRC_GUARDS = False
+    if _SRC_GUARDS:
+        return _SRC_GUARDS(v), True
+    return _guard_vector_copy(v), False
+
+
+def _guard_vector_copy(v):
     import torch
     from quantem.core.io.serialize import AutoSerialize
     return [isinstance(v, torch.Tensor), isinstance(v, torch.optim.Optimizer),
@@ -874,6 +949,8 @@ def run_case(case):
     tmp = tempfile.mkdtemp(prefix="c01_")
     label = case.get("label", "graph")
     try:
+        # overwrite history: the target holds an earlier save of a DIFFERENT graph when this one is written (mode 'o')
+        prev = build(case["prev_spec"]) if case.get("prev_spec") else None
         obj = build(case["spec"])
         try:
             res["v"] = alpha(obj, stats=res["stats"])
@@ -884,15 +961,17 @@ def run_case(case):
             seen = set()
             for lf in leaves(obj, []):
                 try:
-                    t = alpha(lf)
+                    t = alpha(lf, root=False)
                 except Unmodelled:
                     continue
                 kk = (type(lf).__name__, getattr(getattr(lf, "dtype", None), "name", None) if isinstance(lf, np.generic) else None)
                 if kk in seen:
                     continue
                 seen.add(kk)
-                gv = guard_vector(lf)
-                res["disp"].append({"term": t, "guards": [bool(g) for g in gv], "mro": mro_names(lf),
+                gv, from_src = guard_vector(lf)
+                from quantem.core.io.serialize import AutoSerialize as _AS
+                res["disp"].append({"term": t, "guards": [bool(g) for g in gv], "guards_from_source": from_src,
+                                    "is_numeric": bool(_AS._is_numeric_scalar(lf)), "mro": mro_names(lf),
                                     "type": type(lf).__name__,
                                     "abcs": [n for n, t_ in zip(ABC_DOMAIN, resolve_types(ABC_DOMAIN)) if isinstance(lf, t_)]})
         cfg = case["cfg"]
@@ -905,7 +984,7 @@ def run_case(case):
         res["sn_order"] = list({x for x in skip_s if isinstance(x, str)})
         # ---------------- save
         try:
-            p = real_save(obj, tmp, cfg, skip=skip_s)
+            p = real_save(obj, tmp, cfg, skip=skip_s, prev=prev, notes=res["notes"])
         except Exception as e:  # noqa
             res["diffs"].append(("%s:save-raises-%s" % (label, _exc_key(e)), "save raised %s: %s" % (type(e).__name__, str(e)[:160])))
             res["save_exc"] = traceback.format_exc()[-600:]
@@ -927,7 +1006,7 @@ def run_case(case):
         except Unmodelled as u:
             res["notes"].append("loaded object not modelled: %s" % u)
         if case["prop"] == "C01":
-            _oracle_c01(case, obj, ld, p, tree, tmp, res)
+            _oracle_c01(case, obj, ld, p, tree, tmp, res, prev)
         else:
             _oracle_c14(case, obj, ld, tmp, res)
     except Exception:  # harness-side failure: reported by the parent as such
@@ -946,8 +1025,9 @@ def _term_or_none(f, *a, **k):
         return None
 
 
-def _oracle_c01(case, obj, ld, p, tree, tmp, res):
+def _oracle_c01(case, obj, ld, p, tree, tmp, res, prev=None):
     cfg = case["cfg"]
+    hist = prev is not None and cfg["mode"] == "o"
     label = case.get("label", "graph")
     pre = "" if label == "graph" else label + ":"
     for k, m in graph_diff(obj, ld, exact=False):
@@ -955,8 +1035,9 @@ def _oracle_c01(case, obj, ld, p, tree, tmp, res):
     # fixed point: save the loaded object again and reload it
     if case.get("fixpoint"):
         try:
-            cfg2 = dict(cfg, mode="w")
-            p2 = real_save(ld, tmp, cfg2, tag="second")
+            # (with an overwrite history: the loaded object is saved over the SAME target once more, mode 'o')
+            cfg2 = dict(cfg, mode="o" if hist else "w")
+            p2 = real_save(ld, tmp, cfg2, tag="x" if hist else "second")
             res["obs2"] = _term_or_none(lambda: node_term(walk(p2)))       # the store written by the second save
             res["ld_s"] = _term_or_none(alpha, ld)                         # the loaded object as saved (rng states as they are)
             ld2 = real_load(p2)
@@ -969,8 +1050,9 @@ def _oracle_c01(case, obj, ld, p, tree, tmp, res):
     # the other store (and another compression level / target type) gives the same file and object
     if case.get("other_store"):
         try:
-            cfg3 = dict(case["other_store"])
-            p3 = real_save(obj, tmp, cfg3, tag="other")
+            # (with an overwrite history: the other store goes through the same history)
+            cfg3 = dict(case["other_store"], mode="o") if hist else dict(case["other_store"])
+            p3 = real_save(obj, tmp, cfg3, tag="other", prev=prev if hist else None)
             tree3 = walk(p3)
             res["obs3"] = _term_or_none(node_term, tree3)                  # the other store, as written
             if tree_canon(tree3) != tree_canon(tree):
@@ -993,7 +1075,7 @@ def survivors(obj, names, types):
     for k, v in ovars(obj).items():
         if k in names or (types and isinstance(v, tuple(types))):
             continue
-        out[k] = survivors(v, names, types) if isinstance(v, AutoSerialize) else None
+        out[k] = survivors(v, names, types) if (isinstance(v, AutoSerialize) and not is_hybrid(v)) else None
     return out
 
 
@@ -1037,6 +1119,10 @@ def _oracle_c14(case, obj, ld, tmp, res):
         for k, m in pruned_diff(base, ld, surv, values=not case.get("container_objects")):
             res["diffs"].append((k, "save skip=%s+%s, load skip=%s: %s" % (sn_s, st_s, sn_l, m)))
     names = sorted(set(sn_s) | set(sn_l))
+    # hybrids below the root are saved whole (module kind): what happens to skipped names inside them is recorded only
+    hyb = [v for v in ovars(ld).values() if is_hybrid(v)]
+    res["hybrid_children"] = len(hyb)
+    res["hybrid_child_skipped_names_surviving"] = sum(1 for h in hyb for nm in names if nm in ovars(h))
     if case.get("save_eq_load") and names:
         # skipping the names at load time only == skipping them at save time only
         p1 = real_save(obj, tmp, dict(cfg, mode="w"), skip=names, tag="at_save")
